@@ -23,6 +23,7 @@ struct Cfg {
     int max_vertices = 40;
     bool big_polygons = false;    // allow one polygon above 8190 vertices
     bool nonsimple_paths = false; // allow non-simple (multi-element / tapered) paths
+    bool close_vertices = false;  // allow path vertices exactly one grid step apart
     bool robust_paths = false;
     bool dangling = false;        // references to cells that are not in the library
     bool props = true;
@@ -406,6 +407,8 @@ inline model::MPoly polygon(Ctx& c, bool allow_big) {
     return p;
 }
 
+enum { END_FLUSH_ = 0, END_ROUND_ = 1, END_HALF_ = 2, END_EXT_ = 3, END_SMOOTH_ = 4 };
+
 inline model::MPath path(Ctx& c) {
     model::MPath p;
     Rng& r = c.r;
@@ -429,6 +432,10 @@ inline model::MPath path(Ctx& c) {
         cur = Pt{cur.x + dx, cur.y + dy};
         p.spine.push_back(cur);
     }
+    if (c.cfg.close_vertices && r.chance(0.1)) {
+        Pt last = p.spine.back();
+        p.spine.push_back(Pt{canon::rgrid(last.x) * 10 + (r.chance(0.5) ? 10 : 0), canon::rgrid(last.y) * 10 + 10});
+    }
     p.hw = r.chance(0.05) ? 0 : ongrid(c, 1, 40) / (r.chance(0.2) ? 2 : 1) + frac(c);
     if (p.hw < 0) p.hw = -p.hw;
     bool oas = c.cfg.mode == canon::OAS;
@@ -447,6 +454,36 @@ inline model::MPath path(Ctx& c) {
     p.scale_width = oas ? true : r.chance(0.75);
     p.rep = repetition(c, false);
     p.props = props(c, true);
+    if (c.cfg.robust_paths && manhattan && r.chance(0.4)) {
+        // the writer samples a RobustPath's centre line at interior points: only on axis-parallel
+        // segments do those samples stay exactly on the line after rounding
+        p.impl = 1;
+        for (auto& q : p.spine) {
+            q.x = canon::rgrid(q.x) * 10;
+            q.y = canon::rgrid(q.y) * 10;
+        }
+    }
+    if (c.cfg.nonsimple_paths && r.chance(0.2)) {
+        // written as polygons: keep the outline free of self-crossings (x-monotone spine, long segments)
+        p.simple = false;
+        p.impl = r.chance(0.3) ? 1 : 0;
+        p.nelem = (int)r.range(1, 3);
+        p.hw = ongrid(c, 2, 20);
+        p.sep = p.nelem > 1 ? 2 * p.hw + ongrid(c, 2, 30) : 0;
+        p.join = (int)r.below(4);
+        static const int ends[] = {END_FLUSH_, END_ROUND_, END_HALF_, END_EXT_, END_SMOOTH_};
+        p.end = ends[r.below(p.impl ? 4 : 5)];
+        p.eu = ongrid(c, 0, 40);
+        p.ev = ongrid(c, 0, 40);
+        Pt cur2 = p.spine[0];
+        dg_t reach = (p.hw + p.sep * p.nelem) * 6 + 100;
+        p.spine.resize(1);
+        int n2 = (int)r.range(2, 5);
+        for (int i = 1; i < n2; i++) {
+            cur2 = Pt{cur2.x + reach + ongrid(c, 0, 100), cur2.y + ongrid(c, -40, 40) * (reach / 400 + 1)};
+            p.spine.push_back(cur2);
+        }
+    }
     return p;
 }
 
@@ -569,6 +606,37 @@ inline model::MLib library(Rng& r, const Cfg& cfg) {
         if (cfg.mode == canon::OAS) cell.props = props(c, false);
     }
     if (cfg.mode == canon::OAS) m.props = props(c, false);
+    // sums of two off-grid parts may have produced a last digit of 5: rounding must never be a tie
+    auto fix = [](dg_t& v) {
+        if (llabs(v % 10) == 5) v += 1;
+    };
+    for (auto& cell : m.cells) {
+        for (auto& p : cell.polys) {
+            for (auto& q : p.pts) {
+                fix(q.x);
+                fix(q.y);
+            }
+            fix(p.ccenter.x);
+            fix(p.ccenter.y);
+        }
+        for (auto& p : cell.paths) {
+            for (auto& q : p.spine) {
+                fix(q.x);
+                fix(q.y);
+            }
+            fix(p.hw);
+            fix(p.eu);
+            fix(p.ev);
+        }
+        for (auto& l : cell.labels) {
+            fix(l.origin.x);
+            fix(l.origin.y);
+        }
+        for (auto& r2 : cell.refs) {
+            fix(r2.origin.x);
+            fix(r2.origin.y);
+        }
+    }
     return m;
 }
 
